@@ -29,6 +29,9 @@ COMPILERS = {
                           "-fno-sanitize-recover=all", "-fno-sanitize=object-size", "-Wno-everything"],
     "gcc-rel": ["g++", "-std=c++17", "-O2", "-DNDEBUG", "-w"],
     "gcc-dbg": ["g++", "-std=c++17", "-O0", "-g", "-w"],
+    # threads: ThreadSanitizer, reports fatal
+    "gcc-tsan": ["g++", "-std=c++17", "-O1", "-g", "-fsanitize=thread", "-w"],
+    "gcc-tsan-ndebug": ["g++", "-std=c++17", "-O1", "-g", "-DNDEBUG", "-fsanitize=thread", "-w"],
     # programs with shared libraries (dlopen / dlclose): template statics must not be STB_GNU_UNIQUE,
     # otherwise glibc never unloads the library
     "gcc-dl": ["g++", "-std=c++17", "-O1", "-g", "-w", "-fno-gnu-unique", "-fPIC"],
@@ -82,6 +85,8 @@ def _run_one(prog, flavour, workdir):
     env = dict(os.environ)
     env.update(vfcheck.SAN_ENV)
     env.pop("YOMM2_TRACE", None)
+    if "tsan" in flavour:
+        env["TSAN_OPTIONS"] = "halt_on_error=1:exitcode=66:second_deadlock_stack=1"
     try:
         r = subprocess.run([exe], stdout=subprocess.PIPE, stderr=subprocess.PIPE, text=True, errors="replace",
                            timeout=prog.timeout, env=env, cwd=workdir)
@@ -106,7 +111,7 @@ def _run_one(prog, flavour, workdir):
             combos.append(m.group(1))
     crash = None
     if rc != 0 and not fails:
-        head = re.search(r"(ERROR: AddressSanitizer: [\w-]+|runtime error: [^\n]{0,100}|Assertion [^\n]{0,100}failed)", err)
+        head = re.search(r"(ERROR: AddressSanitizer: [\w-]+|(?:WARNING|ERROR): ThreadSanitizer: [\w -]+|runtime error: [^\n]{0,100}|Assertion [^\n]{0,100}failed)", err)
         crash = "exit %s %s\n%s" % (rc, head.group(1) if head else "", (out[-1500:] + "\n" + err[-4000:]))
     elif rc == 0 and "VFB-DONE" not in out:
         crash = "program ended without VFB-DONE\n" + out[-1500:] + err[-2000:]
@@ -132,7 +137,7 @@ def run_programs(check, programs, max_parallel=12, only_prefix=None, remap_prefi
             if crash == "TIMEOUT":
                 check.extra_failures.append("program %s (%s) timed out: inconclusive" % (prog.name, flavour))
             elif crash:
-                head = re.search(r"(ERROR: AddressSanitizer: [\w-]+|runtime error: [^\n]{0,80}|Assertion [^\n]{0,80}failed)", crash)
+                head = re.search(r"(ERROR: AddressSanitizer: [\w-]+|(?:WARNING|ERROR): ThreadSanitizer: [\w -]+|runtime error: [^\n]{0,80}|Assertion [^\n]{0,80}failed)", crash)
                 k = re.sub(r"[^A-Za-z0-9_.-]+", "_", head.group(1))[:70] if head else "abnormal-exit"
                 bad.append(("%s:program-crash:%s" % (check.prop, k), crash))
             for key, detail in fails:
